@@ -275,6 +275,18 @@ func TestC04(t *testing.T) {
 		sfos = append(sfos, mkSFO([]sfoKV{{"TITLE_ID", strings.Repeat("T", l)}}))
 		sfoDesc = append(sfoDesc, sprintf("sfo TITLE_ID of %d characters", l))
 	}
+	// NUL-padded / NUL-containing TITLE_ID values with a declared length that covers the padding
+	for l := 0; l <= 9; l++ {
+		for _, total := range []int{9, 12, 31} {
+			if l > total {
+				continue
+			}
+			sfos = append(sfos, mkSFO([]sfoKV{{"TITLE_ID", strings.Repeat("T", l) + strings.Repeat("\x00", total-l)}}))
+			sfoDesc = append(sfoDesc, sprintf("sfo TITLE_ID of %d characters NUL-padded to %d", l, total))
+		}
+	}
+	sfos = append(sfos, mkSFO([]sfoKV{{"TITLE_ID", "AB\x00CD12345"}}), mkSFO([]sfoKV{{"TITLE_ID", "\x00BLES01234"}}), mkSFO([]sfoKV{{"TITLE_ID", "BLES\x0001234"}}))
+	sfoDesc = append(sfoDesc, "sfo TITLE_ID with an embedded NUL after 2 characters", "sfo TITLE_ID starting with NUL", "sfo TITLE_ID with NUL at the split position")
 	b := append([]byte{}, good...)
 	b[0] = 'X'
 	sfos = append(sfos, b, mkSFO([]sfoKV{{"TITLE", "no id"}}), mkSFO(nil))
